@@ -207,6 +207,9 @@ def work(p):
 def run(ck):
     quick = ck.tier == "quick"
     exprs = list(gt.enumerate_upto(4 if quick else 5))
+    hood = gt.neighbourhood_exprs(ck.rng("hood"), 150 if quick else 3000)
+    ck.count("trigger_neighbourhood_types", len(hood))
+    exprs += hood
     rs = ck.rng("inferred")
     inferred = []
     ms = [list(m) for m in gv.multisets(2)]
@@ -232,8 +235,11 @@ def run(ck):
         ck.need(f"{name}:changed", 20, "rewriter never observed firing")
     ck.need("membership_judgements", 50000)
     ck.need("inferred_inputs", 1000)
+    ck.need("trigger_neighbourhood_types", 3000)
     return ck.finish(
         rule="types: every grammar expression up to the node bound (quick: sizes 1-4 complete; thorough: sizes 1-5), "
+        "unions built around each rewriter's trigger (tuples incl. Tuple[()], class families with None, dict unions, empty containers next to same / "
+        "sub-kind containers) in every member order for sizes 2-3 and sampled for 4-7, also nested under every generic, "
         "seeded random types/unions beyond, and types inferred from value multisets; each x 7 shipped rewriters + the default chain "
         "stage by stage + sampled ordered pairs through ChainedRewriter. distinct = structure of the input type with classes abstracted",
         assumptions=["non-narrowing is decided value-wise on canonical inhabitants (vf/oracle/inhabit.py) and on the real witness values",
